@@ -273,6 +273,12 @@ func init() {
 		}
 		return smt.True
 	}
+	intrinsics["vScreenRejections"] = func(in *Interp, fn *ssa.Function, a []Value) Value {
+		if v, _ := in.Ghost["choice:rtvalidator.rejects"].(int); v == 1 {
+			return smt.BV(1, 64)
+		}
+		return smt.BV(0, 64)
+	}
 	intrinsics["vScreenCalls"] = func(in *Interp, fn *ssa.Function, a []Value) Value {
 		screened, _ := in.Ghost["screened"].([]string)
 		return smt.BV(uint64(len(screened)), 64)
